@@ -265,6 +265,11 @@ namespace GeographicLib {
                 dmsa.substr(beg, end - beg);
               break;
             }
+            if (npiece >= 3) {
+              errormsg = "More than 3 DMS components in "
+                + dmsa.substr(beg, end - beg);
+              break;
+            }
             k = npiece;
           }
           if (unsigned(k) == npiece - 1) {
